@@ -7,6 +7,7 @@
 // When the child dies the parent attributes the death to the published call, records it, and
 // forks again for the remaining calls.  On a correct tree that is one fork per batch.
 #pragma once
+#include <errno.h>
 #include <fcntl.h>
 #include <signal.h>
 #include <stdint.h>
@@ -25,7 +26,12 @@ namespace c02 {
 
 static volatile int g_in_child = 0;
 
-enum Code : int32_t { NOT_RUN = 0, OK = 1, FAIL = 2, DIED = 3 };
+enum Code : int32_t { NOT_RUN = 0, OK = 1, FAIL = 2, DIED = 3, SKIPPED = 4 };
+
+// A tree on which thousands of calls are fatal costs one fork per death.  After this many deaths in one
+// shard process the rest of a batch in which a further call dies is skipped and the section reports
+// exhaustive:false (the violations found so far are reported as usual).
+constexpr uint64_t DEATH_CAP = 400;
 
 struct CaseResult {
   int32_t code;
@@ -44,6 +50,14 @@ struct CaseResult {
     set(key, sizeof(key), fatal_key);
     set(msg, sizeof(msg), desc);
   }
+  // cheap variant for high-volume sections: only the key to use if the call is fatal
+  void arm_key(const char* fatal_key) {
+    code = NOT_RUN;
+    size_t n = strlen(fatal_key);
+    if (n > sizeof(key) - 1) n = sizeof(key) - 1;
+    memcpy(key, fatal_key, n);
+    key[n] = 0;
+  }
   void ok(const std::string& c) {
     code = OK;
     set(cls, sizeof(cls), c);
@@ -56,7 +70,7 @@ struct CaseResult {
   }
 };
 
-constexpr size_t MAXB = 256;
+constexpr size_t MAXB = 4352;
 struct Shared {
   volatile uint32_t progress;
   CaseResult res[MAXB];
@@ -73,7 +87,7 @@ inline Shared* shared() {
 }
 
 struct BatchStats {
-  uint64_t forks = 0, deaths = 0;
+  uint64_t forks = 0, deaths = 0, skipped = 0;
 };
 inline BatchStats& stats() {
   static BatchStats s;
@@ -81,7 +95,11 @@ inline BatchStats& stats() {
 }
 
 // Runs fn(i, result) for i in [0, count) in forked children.  Returns the shared result array.
-inline CaseResult* run_batch(vf::Run& r, size_t count, const std::function<void(size_t, CaseResult&)>& fn) {
+// `describe(i)` (optional) supplies the description of call i on the parent side when the child
+// died before writing one (sections with very many cheap calls arm only the key, not the text).
+// errno is set to a deterministic value before every call (ambient state owned by the harness).
+inline CaseResult* run_batch(vf::Run& r, size_t count, const std::function<void(size_t, CaseResult&)>& fn,
+    const std::function<std::string(size_t)>& describe = nullptr) {
   if (count > MAXB) { fprintf(stderr, "batch too large\n"); _exit(3); }
   Shared* sh = shared();
   for (size_t i = 0; i < count; i++) {
@@ -101,9 +119,11 @@ inline CaseResult* run_batch(vf::Run& r, size_t count, const std::function<void(
       g_in_child = 1;
       int dn = open("/dev/null", O_WRONLY);
       if (dn >= 0) dup2(dn, 2);  // ASan banners of expected deaths would flood the shard log
-      alarm(30);
+      alarm(20);
       for (size_t i = start; i < count; i++) {
         sh->progress = (uint32_t)i;
+        static const int kErr[4] = {EINTR, 0, ERANGE, EINVAL};
+        errno = kErr[(i + r.cur) & 3];
         fn(i, sh->res[i]);
       }
       _exit(0);
@@ -116,14 +136,22 @@ inline CaseResult* run_batch(vf::Run& r, size_t count, const std::function<void(
     stats().deaths++;
     std::string how;
     if (WIFEXITED(st) && WEXITSTATUS(st) == 77) how = "AddressSanitizer report (out-of-bounds access, guard-page fault or impossible allocation)";
-    else if (WIFSIGNALED(st) && WTERMSIG(st) == SIGALRM) how = "no result within 30 s (hang)";
+    else if (WIFSIGNALED(st) && WTERMSIG(st) == SIGALRM) how = "no result within 20 s (hang)";
     else if (WIFSIGNALED(st)) how = vf::fmt("killed by signal %d", WTERMSIG(st));
     else how = vf::fmt("exit status %d", WEXITSTATUS(st));
     CaseResult& c = sh->res[i];
+    if (!c.msg[0] && describe) c.set(c.msg, sizeof(c.msg), describe(i));
     std::string d = std::string(c.msg) + " :: process died: " + how;
     c.code = DIED;
     c.set(c.msg, sizeof(c.msg), d);
     start = i + 1;
+    if (stats().deaths > DEATH_CAP && start < count) {
+      for (size_t j = start; j < count; j++) sh->res[j].code = SKIPPED;
+      stats().skipped += count - start;
+      if (r.exhaustive) r.notes.push_back(vf::fmt("more than %llu fatal calls in this shard: the remaining calls of every batch in which a further call is fatal are skipped", (unsigned long long)DEATH_CAP));
+      r.exhaustive = false;
+      break;
+    }
   }
   return sh->res;
 }
@@ -136,7 +164,8 @@ inline void fold(vf::Run& r, const CaseResult* res, size_t count) {
     else if (c.code == FAIL || c.code == DIED) {
       if (c.code == DIED) r.counters["calls that killed the process"]++;
       r.fail(c.key, [&] { return std::string(c.msg); });
-    } else r.fail("engine:case-not-run", [&] { return std::string("batch case without result: ") + c.msg; });
+    } else if (c.code == SKIPPED) r.counters["calls skipped after the death cap"]++;
+    else r.fail("engine:case-not-run", [&] { return std::string("batch case without result: ") + c.msg; });
   }
 }
 
